@@ -798,3 +798,10 @@ package fpgo
 //@   ensures permutation: PERM(input, p)
 //@   ensures ordered: forall2(i, 0, len(input), j, 0, len(input), i < j ==> !LEXLT(builder, input[j], input[i]))
 //@   ensures stable: forall2(i, 0, len(input), j, 0, len(input), i < j && !LEXLT(builder, input[i], input[j]) ==> p[i] < p[j])
+
+//@ func CurryNew
+//@   prop C20
+//@   opt callbacks=effectful
+//@   opt effects=trace
+//@   ensures lazy: tr_len == old(tr_len)
+//@   ensures made: r0 != nil && fresh(r0) && r0.fn == fn && len(r0.args) == 0 && !r0.isDone
